@@ -205,7 +205,7 @@ Section Registry.
     - intros k v Hk. apply lookup_delete_Some in Hk as [Hne Hk].
       destruct (I2 _ _ Hk) as (c0 & o0 & Hc0 & Ho0 & ->).
       destruct (decide (v = cid)) as [->|Hv'].
-      + exfalso. rewrite Hc in Hc0. injection Hc0 as <-.
+      + exfalso. pose proof (eq_trans (eq_sym Hc) Hc0) as Heq. injection Heq as <-.
         rewrite (owner_is_fun _ _ _ Ho Ho0) in Hne. congruence.
       + exists c0, o0. rewrite lookup_delete_ne by congruence. auto.
     - intros k Hk. apply elem_of_union in Hk as [Hk|Hk].
